@@ -270,7 +270,7 @@ def main(argv=None):
     built = pm.build(args.tier, seed)
     obs = built["obligations"]
     for o in obs:
-        o.setdefault("timeout", 120 if args.tier == "quick" else 600)
+        o.setdefault("timeout", 120 if args.tier == "quick" else 1500)
     if args.only:
         obs = [o for o in obs if args.only in o["id"]]
     if args.list:
